@@ -364,7 +364,7 @@ def run(tier, seed, shard, nshards):
                 s.sample(dict(cpu=cpu[0], script=[c[-1] for c in cmds]))
 
     try:
-        n = 600 if tier == "quick" else 5000
+        n = 1500 if tier == "quick" else 5000
         hyp_run(test, history(), n, shard_seed(seed, shard, "c19"), s)
     finally:
         ck.close()
